@@ -137,6 +137,8 @@ namespace c15
     bool affine_only;   // parametric element whose functionals/reproduction are claimed on affine cells only (CaiDouSanSheYe)
     bool conforming;    // H1-conforming: interpolants continuous across interior facets
     int w_repro, w_dual, w_l2, w_deriv, w_conf; // op weights
+    // known-finding switches per op (repro, dual, l2proj, deriv, conf): when the driver switched the class off, the op is replaced
+    const char* excl[5];
   };
 
   template<typename Space_, bool GRAD_, bool HESS_, bool NF_> struct Check
@@ -272,13 +274,17 @@ namespace c15
     }
 
     // ============================================================================================
-    static void run(Tape& t, Ctx& c, const ElemCfg& cfg)
+    struct NoFix { void operator()(MeshData<ShapeType>&, Ctx&) const {} };
+    static void run(Tape& t, Ctx& c, const ElemCfg& cfg) { run(t, c, cfg, NoFix()); }
+    /// fix: generator hook applied to the generated mesh (used to steer away from known-finding classes by construction)
+    template<typename Fix_> static void run(Tape& t, Ctx& c, const ElemCfg& cfg, const Fix_& fix)
     {
       c.desc.set("elem", cfg.name); c.desc.set("shape", R::name());
       c.label(std::string("elem:") + cfg.name + ":" + R::name());
       int wr = NF_ ? cfg.w_repro : 0, wd = NF_ ? cfg.w_dual : 0, wc = cfg.w_conf;
       int op = t.pick({wr, wd, cfg.w_l2, cfg.w_deriv, wc});
       if(!NF_ && op < 2) op = 2;
+      if(cfg.excl[op] != nullptr && c.excl(cfg.excl[op])) op = (op == 2 ? 3 : 2); // steer away from a known-finding class: another op on the same element
       static const char* opn[5] = {"repro", "dual", "l2proj", "deriv", "conf"};
       c.op = opn[op]; c.desc.set("op", c.op); c.label(std::string("op:") + c.op);
       GenOpt go;
@@ -287,7 +293,8 @@ namespace c15
       if(cfg.affine_only && op <= 2) go.allow_jitter = false;
       if(op == 4) go.min_cells = 2;
       if(dim == 3 && (op == 1 || op == 2)) go.maxn = 2;
-      Setup s(gen_mesh<ShapeType>(t, c, go));
+      MeshData<ShapeType> md0 = gen_mesh<ShapeType>(t, c, go); fix(md0, c);
+      Setup s(std::move(md0));
       c.desc.set("mesh", s.md.desc);
       switch(op)
       {
@@ -322,7 +329,7 @@ namespace c15
       { J pj = J::arr(); for(auto& x : pts) { J q = J::arr(); for(int j = 0; j < dim; ++j) q.add(x[size_t(j)]); pj.add(q); } c.desc.set("pts", pj); }
       c.nontrivial = (p.degree() >= 1) || cfg.deg == 0;
       c.announce();
-      VecT u; Assembly::Interpolator::project(u, p, s.space);
+      VecT u; if constexpr(NF_) Assembly::Interpolator::project(u, p, s.space); else VF_FAIL("harness:repro without node functionals");
       VF_CHECK(u.size() == s.space.get_num_dofs(), "interpolation vector has size " << u.size() << " != num_dofs " << s.space.get_num_dofs());
       const double pm = pmax_of(p, s.md);
       Ev ev(s.trafo, s.space);
